@@ -176,7 +176,7 @@ func joinTokens(toks []ptok, rng *rand.Rand, base bool, edits int) string {
 func init() {
 	register("c11", Def{
 		Rule: "seeded progressions rendered as a canonical text (degree notation or note names in a seeded key) and V spelling variants each: trivia (space, tab, newline, `;` comment, none) changed at " +
-			"seeded token gaps, `_` before symbols that do not need it, leading zeros on durations, # / b written as the Unicode signs; plus one-accidental texts for every key. The spec re-derives " +
+			"seeded token gaps, `_` before symbols that do not need it, leading zeros on durations, # / b written as the Unicode signs; plus one-accidental texts for every key; plus stretched trivia (a gap holding 4 093 or 70 001 blanks, blank lines or comment characters: longer than any line buffer). The spec re-derives " +
 			"that base and variant have equal abstract token sequences; real `text conv` must print identical bytes for both and the meaning Conv.tla computes. distinct = distinct (base, variant) pairs",
 		Gen: func(c *Ctx) []Case {
 			rng := rand.New(rand.NewSource(c.Seed))
@@ -192,6 +192,17 @@ func init() {
 			for nn := 1; nn <= 7; nn++ {
 				for _, a := range []int{1, -1} {
 					cases = append(cases, Case{"prog": []PItem{{N: nn, Acc: a, Sym: "7", HasBass: true, BN: 8 - nn, BAcc: -a, Vals: one()}}, "mode": "degree", "key": "", "variants": 3, "seed": rng.Int63()})
+				}
+			}
+			// stretched trivia: a gap filled with tens of thousands of blanks / blank lines, or a comment line longer than any
+			// line buffer; the record carries the text with one and with two units, the run uses `n` units
+			for i, st := range []string{"blanks", "comment", "lines", "comment", "blanks", "tabs"} {
+				for _, nn := range []int{4093, 70001} {
+					mode, key := "degree", ""
+					if i%2 == 0 {
+						mode, key = "syllable", supportedKeys[rng.Intn(len(supportedKeys))]
+					}
+					cases = append(cases, Case{"cmd": "stretch", "kind": st, "n": nn, "prog": randomProg(rng, 4, 0.2, 7), "mode": mode, "key": key, "seed": rng.Int63()})
 				}
 			}
 			for i := 0; i < n; i++ {
@@ -219,6 +230,34 @@ func init() {
 			base := joinTokens(toks, rng, true, 0) + "\n"
 			a, aout := convRec(c, mode, key, base)
 			recs := []Rec{}
+			if cs(k, "cmd") == "stretch" {
+				// the gap in front of an item (after a `]` or `}`), or the end of the text
+				gaps := []int{len(base) - 1}
+				for i := 1; i < len(base)-1; i++ {
+					if (base[i-1] == ']' || base[i-1] == '}') && base[i] == ' ' {
+						gaps = append(gaps, i)
+					}
+				}
+				at := gaps[rng.Intn(len(gaps))]
+				var pre, unit, post string
+				switch cs(k, "kind") {
+				case "blanks":
+					unit = " "
+				case "tabs":
+					unit = "\t "
+				case "lines":
+					unit = "\n"
+				case "comment":
+					pre, unit, post = " ;", "x", "\n"
+				}
+				mk := func(n int) string { return base[:at] + pre + strings.Repeat(unit, n) + post + base[at:] }
+				b1, _ := convRec(c, mode, key, mk(1))
+				b2, _ := convRec(c, mode, key, mk(2))
+				bn, bnout := convRec(c, mode, key, mk(ci(k, "n")))
+				delete(bn, "s") // too long to carry; the spec judges the one- and two-unit texts
+				delete(bn, "out")
+				return []Rec{{"kind": "stretch", "sub": cs(k, "kind"), "a": a, "b1": b1, "b2": b2, "bn": bn, "n": ci(k, "n"), "unit": chars(unit), "sameBytes": bytes.Equal(aout, bnout)}}
+			}
 			for i := 0; i < ci(k, "variants"); i++ {
 				vt := joinTokens(toks, rng, false, 1+rng.Intn(4))
 				b, bout := convRec(c, mode, key, vt)
@@ -226,6 +265,11 @@ func init() {
 			}
 			return recs
 		},
-		Key: func(r Rec) string { return fmt.Sprint(r["a"].(Rec)["s"], r["b"].(Rec)["s"]) },
+		Key: func(r Rec) string {
+			if r["kind"] == "stretch" {
+				return fmt.Sprint(r["a"].(Rec)["s"], r["b1"].(Rec)["s"], r["n"])
+			}
+			return fmt.Sprint(r["a"].(Rec)["s"], r["b"].(Rec)["s"])
+		},
 	})
 }
